@@ -658,7 +658,14 @@ MANIFEST = {
         "temp name shared between callers. Tie: on every run the variant is inferred from the real code by probes, then scripted histories "
         "(pre-populated directories, 1-3 interleaved callers, crashes after any chunk, PYTHONHASHSEED unset/set per call) run on the REAL "
         "function under a scheduler and on the model, replies compared line by line; a caller dying after exactly k bytes for a spread of k "
-        "(quick) / every k (thorough). Not proved, only executed: pickle format, SymPy equality/doit, the OS assumptions listed in level_note."
+        "(quick) / every k (thorough). Independent oracles on the real function judge the RETURNED object (structural identity incl. symbol "
+        "assumptions and non-SymPy attributes, srepr/hash/free symbols, unfolding again, value at a rational point, subs, pickle round trip) "
+        "and that the argument is untouched: sequences of calls in ONE process (repeats after a confirmed disk hit, string-equal expressions "
+        "alternating, three directories, file deleted/replaced behind the function — an in-memory layer would show), cache_directory=None "
+        "resolved through XDG_CACHE_HOME/HOME inside scratch space, symbol names with path separators/newlines/unicode and a 2 kB str, "
+        "both key functions (sha256(str) and the seeded hash) in fresh interpreters with PYTHONHASHSEED unset/0/424242, every call under a "
+        "wall-clock cap (a stuck call is a failing input). Not proved, only executed: pickle format, SymPy equality/doit, the OS assumptions "
+        "listed in level_note."
     ),
     "level_note": (
         "Trusted: Lean kernel (core only; axioms propext, Quot.sound); the hand-written model and the Python scheduler/hooks "
@@ -671,7 +678,9 @@ MANIFEST = {
         "name; the source then can raise FileNotFoundError at the second os.replace and lets one thread write into the file the other already "
         "published (C16_witness_shared_temp; reproduced on the real code by the scheduler when pids are forced equal; recorded, outside the "
         "property's 'several processes'). A sub-directory named like the cache or temp file makes the function raise IsADirectoryError "
-        "(no history of calls produces it; recorded in evidence as outside_model_observations). Files planted with a forged record "
+        "(no history of calls produces it; recorded in evidence as outside_model_observations, as are: an expression that pickle cannot serialise "
+        "makes the call raise and leaves a temp file; a regular file in place of the cache directory raises FileExistsError; a read-only "
+        "directory cannot be probed as root). Files planted with a forged record "
         "(expr, wrong result) are outside the claim. In-process crashes are simulated by a BaseException at a pause point; real deaths "
         "(os._exit in the middle of a write, SIGKILL) and real interpreter hash seeds are exercised with real processes (a few in quick, "
         "many in thorough)."
